@@ -29,6 +29,10 @@ static inline double bd_atan2(double y, double x)
   __CPROVER_assert(!(y == 0 && x == 0), "atan2 is not called with (0, 0)");
   double r;   /* any value allowed by the assumed contract */
   __CPROVER_assume(r >= -M_PI && r <= M_PI);
+#ifdef GV_EXCL_TINY_NEG   /* exclusion predicate of the finding "bearing == 2 pi": atan2 does not return a negative value
+                             of magnitude below 1e-9 (i.e. the target is not within 1e-9 rad below the +x axis) */
+  __CPROVER_assume(!(r < 0 && r > -1e-9));
+#endif
   gv_atan2_y = y;
   gv_atan2_x = x;
   gv_atan2_ret = r;
@@ -65,10 +69,6 @@ void h_bearing(void)
 {
   double ya, xa, yb, xb, b1, d1;
   __CPROVER_assume(INR(ya) && INR(xa) && INR(yb) && INR(xb));
-#ifdef GV_EXCL_TINY_NEG   /* exclusion predicate of the finding "bearing == 2 pi": the target is not below the +x axis by
-                             less than 1e-9 of the distance (dy in (-1e-9 |dx|, 0), dx > 0) */
-  __CPROVER_assume(!(yb - ya < 0 && xb - xa > 0 && ya - yb < 1e-9 * (xb - xa)));
-#endif
   double w_ya = ya, w_xa = xa, w_yb = yb, w_xb = xb;
   gv_atan2_calls = 0;
   bearing_distance(ya, xa, yb, xb, &b1, &d1);
@@ -76,24 +76,8 @@ void h_bearing(void)
 }
 #endif
 
-#ifdef GV_H_TWO
-/* antisymmetric pattern of C18 (no contract instrumentation: the function is called twice):
-   whenever bearing(a,b) and bearing(b,a) both reach atan2, the second call has the negated arguments of the first.
-   (distance(a,b) == distance(b,a) needs (-dy)^2 + (-dx)^2 == dy^2 + dx^2 bit for bit and a functional model of
-   sqrt: two multiplier circuits the SAT back end does not relate in 400 s -- not decided here) */
-void h_antisym(void)
-{
-  double ya, xa, yb, xb, b1, d1, b2, d2;
-  __CPROVER_assume(INR(ya) && INR(xa) && INR(yb) && INR(xb));
-  gv_atan2_calls = 0;
-  bearing_distance(ya, xa, yb, xb, &b1, &d1);
-  double y1 = gv_atan2_y, x1 = gv_atan2_x;
-  int c1 = gv_atan2_calls;
-  bearing_distance(yb, xb, ya, xa, &b2, &d2);
-  __CPROVER_assert(!(c1 == 1 && gv_atan2_calls == 2) || (gv_atan2_y == -y1 && gv_atan2_x == -x1),
-                   "bearing(b,a) takes atan2 of the negated coordinate differences of bearing(a,b)");
-  if (c1 == 1 && gv_atan2_calls == 2) GV_CANARY("h_antisym both calls reach atan2");
-  GV_CANARY("h_antisym end");
-}
-#endif
+/* NOT DECIDED: the antisymmetric pattern of C18 (bearing(b,a) calls atan2 with the negated arguments of
+   bearing(a,b)) follows from the two postconditions gv_atan2_y == yb - ya, gv_atan2_x == xb - xa above and the
+   IEEE fact (a - b) == -(b - a); neither the SAT back end nor cvc5 decides that fact for symbolic doubles within
+   300 s, and distance(a,b) == distance(b,a) additionally needs a functional model of sqrt.  No check is registered. */
 //@ end
